@@ -11,11 +11,14 @@ export GOFLAGS=-mod=mod GOPROXY=off GOSUMDB=off GOTOOLCHAIN=local
 P=$1; V=$2; shift 2
 CHECKS="${*:-$P}"
 SRC=/tmp/mut/$P.out
+F=$V
+# second wave: variants c/d are a/b of /tmp/mut/<P>.out2
+case $V in c) SRC=/tmp/mut/$P.out2; F=a;; d) SRC=/tmp/mut/$P.out2; F=b;; esac
 DST=/verif/seeded/$P-$V
 WT=/tmp/seedwt.$P.$V.$$
 mkdir -p $DST/demo
-cp $SRC/$V.diff $DST/patch.diff
-cp -r $SRC/${V}_demo/. $DST/demo/ 2>/dev/null
+cp $SRC/$F.diff $DST/patch.diff
+cp -r $SRC/${F}_demo/. $DST/demo/ 2>/dev/null
 log=$DST/runs.log; : > $log
 say() { echo "$@" | tee -a $log; }
 
@@ -77,6 +80,6 @@ if $confirmed; then
   [ -n "$(git -C /repo status --short | grep -v '^??')" ] && say "WARNING: /repo not clean after restore"
 fi
 jq -n --arg p $P --arg v $V --argjson confirmed $confirmed --arg demo "$demo_cmd" --argjson results "$results" \
-  --arg notes "$(awk "/utation $(echo $V | tr a-z A-Z)/,0" $SRC/NOTES.md 2>/dev/null | head -60)" \
+  --arg notes "$(awk "/utation $(echo $F | tr a-z A-Z)/,0" $SRC/NOTES.md 2>/dev/null | head -60)" \
   '{property:$p, variant:$v, confirmed:$confirmed, demo_cmd:$demo, ran:"seedtest.sh: scratch worktree of /repo HEAD: demo passes without change, patch applies, go build + go test ./... (+ device-injector, ulimit-adjuster modules) pass with change, demo fails with change; then patch applied to /repo, checks quick tier run, /repo restored", check_results:$results, agent_notes:$notes}' > $DST/meta.json
 cat $DST/meta.json | jq -c '{property,variant,confirmed,check_results}'
